@@ -84,7 +84,7 @@ def sticky_flag_check(ctx, rule, fn, flag: str, inner_loop_pred):
 def check(ctx) -> None:
     repo = ctx.repo
     ctx.rule("C22.guard", "GUARD-DOM + dataflow: every removal applied to the original is in the true branch of all(map(isclose, A, B)); A computed before the loops from the original, B from a clone on which the same removal (same index) was applied", floor=12)
-    ctx.rule("C22.protected", "every statement-level coverage-guarded remover skips statements whose bound variable is in get_assertion_protected_variables(test case)", floor=3)
+    ctx.rule("C22.protected", "every statement-level coverage-guarded remover skips statements whose bound variable is in get_assertion_protected_variables(test case) and statements that have assertions attached", floor=6)
     ctx.rule("C22.closure", "the backward closure of the protected set iterates to a fixed point: the change flag is only ever raised inside a scan, reset only at the start of a pass", floor=3)
     ctx.rule("C22.stale", "an in-place change of a test case that stays inside a suite/chromosome is followed, before the next coverage computation, by invalidation of its chromosome (fresh TestCaseChromosome / remove_last_execution_result / changed=True)", floor=3)
     ctx.rule("C22.asserted", "ABSINT: _directly_asserted_variables returns the root variable of the source of every reference assertion of every statement (bound or not), and no exception assertion", floor=3)
@@ -188,13 +188,22 @@ def check(ctx) -> None:
                     ok = all(norm(n.value.args[0]) == recv for n in pd)
                     tests = [n for n in own_nodes(fn) if isinstance(n, ast.If) and any(nm in norm(n.test) for nm in prot_names)]
                     for t in tests:
-                        lhs = norm(t.test.left) if isinstance(t.test, ast.Compare) else ""
+                        cmp_ = next((x for x in ast.walk(t.test) if isinstance(x, ast.Compare) and isinstance(x.ops[0], (ast.In, ast.NotIn)) and norm(x.comparators[0]) in prot_names), None)
+                        lhs = norm(cmp_.left) if cmp_ is not None else ""
                         base = lhs.rsplit(".bound_variable", 1)[0]
                         src = base
                         d = [n for n in own_nodes(fn) if isinstance(n, ast.Assign) and norm(n.targets[0]) == base]
                         if d:
                             src = norm(d[0].value)
                         ok = ok and src == f"{recv}.get_statement({idx})"
+                # a statement that carries assertions is kept as well: its assertions go with it
+                def no_assertions(lit):
+                    _k, e, pol = lit
+                    return (not pol) and isinstance(e, ast.Attribute) and e.attr == "assertions"
+
+                pc = unguarded_path(cfg, targets, no_assertions)
+                ctx.paths += 1
+                ctx.check("C22.protected", st, pc is None, f"{cls}: `{norm(r)[:80]}` can remove a statement that has assertions attached (no skip under `<statement>.assertions`): a call without a bound variable, e.g. `var_0.toggle()`, carries the assertions on var_0 observed after it; when it is coverage-neutral it is removed together with these oracles, and an earlier assertion may be left describing a state that is no longer reached", what=f"{cls}: statements with assertions are skipped", path=cfg.describe_path(pc) if pc else None, stmt=norm(st)[:60] + " [carrier]")
                 ctx.check("C22.protected", st, ok, f"{cls}: `{norm(r)[:80]}` can remove a statement whose variable is asserted on (no skip of get_assertion_protected_variables({norm(r.func.value)}) for the statement at the removed index)", what=f"{cls}: protected variables skipped", path=cfg.describe_path(p) if p else [])
 
     # ------------------------------------------------------------------ C22.closure
